@@ -179,23 +179,44 @@ def check_c02(prog, rep, tier, cfg):
     R = "C02.b"
     g = prog.body(REQ + "get_formatting_requirement")
     if rep.check(g is not None, R, "anchor:get_formatting_requirement", "get_formatting_requirement not found"):
+        # Path-wise, up to the point where the soft rules start (the token-type window is fetched) or the function returns: a path that
+        # knows the invariant is Some(v) answers map_can_break(v, ..) and nothing else; the soft rules are reached (or a fallback closure
+        # is evaluated) only where the invariant is None; a path that has not asked the invariant answers Invalid (no context at all).
+        # Forms accepted: `if let Some(v) = invariant { return v.map_can_break(..) }`, `match`, `invariant.unwrap_or_else(|| soft(..))
+        # .map_can_break(..)`, the soft rules in this function or in a helper.
         inv = g.calls_to(REQ + "get_formatting_invariant")
         win = g.calls_to(REQ + "get_token_type_window")
-        mcb = g.calls_to(OLF + "types::DecisionRequirement::map_can_break")
-        mcb = [c for c in mcb if "get_formatting_invariant(" in canon(g, c.args[0])]
-        ok = len(inv) == 1 and len(win) == 1 and len(mcb) == 1
+        ok = len(inv) == 1
+        bad = []
+        nrows = 0
         if ok:
-            ok = g.dominates(inv[0].bb, win[0].bb)
-            facts = dominating_variant_facts(prog, g, mcb[0].bb)
-            ok &= any("get_formatting_invariant(" in f[0] and f[2] == ("Some",) for f in facts)
-            # on the Some arm the function returns map_can_break(value): the match is not reached
-            ok &= not g.can_reach_avoiding(mcb[0].bb, {win[0].bb}, set())
-            ok &= "get_formatting_invariant(" in canon(g, mcb[0].args[0])
-            o = Origins(g).of_place({"l": 0, "p": []})
-            ok &= any(x[0] == "call" and x[1] == mcb[0].bb for x in o)
-            fw = dominating_variant_facts(prog, g, win[0].bb)
-            ok &= any("get_formatting_invariant(" in f[0] and f[2] == ("None",) for f in fw)
-        rep.check(ok, R, "invariant-first", "get_formatting_requirement no longer returns map_can_break(invariant) before consulting the soft rules", instance={"order": "invariant -> map_can_break | soft match only on None"})
+            try:
+                tb = Table(prog, g, inline=1, only=(), stop={c.bb for c in win})
+            except TooComplex as e:
+                tb = None
+                bad.append("get_formatting_requirement is not a decision table up to the soft rules: %s" % e)
+            for cons, res in (tb.rows if tb is not None else []):
+                nrows += 1
+                r = render(res)
+                known = [c for c in cons if c[0] == "is" and str(c[1]).startswith("get_formatting_invariant(") and "@" not in str(c[1])]
+                state = [c[2] for c in known]
+                is_stop = res.kind == "agg" and res.a[0] == "state"
+                if is_stop:
+                    if state != ["None"]:
+                        bad.append("the soft rules are reached on a path where the invariant is %s" % (state or "not consulted"))
+                    continue
+                if r == "Invalid" and not state:
+                    continue
+                if state == ["Some"]:
+                    if not re.match(r"^call:map_can_break\(get_formatting_invariant\([^@]*\)@Some\.0,", r):
+                        bad.append("the invariant is Some(v) but the answer is %s" % r[:90])
+                elif state == ["None"]:
+                    if not r.startswith("call:map_can_break("):
+                        bad.append("a soft answer is returned without map_can_break: %s" % r[:90])
+                else:
+                    bad.append("%s is answered on a path that has not consulted get_formatting_invariant" % r[:60])
+        rep.check(ok and not bad and nrows >= 3, R, "invariant-first", "get_formatting_requirement no longer returns map_can_break(invariant) before consulting the soft rules: %s" % (bad[:2] or "anchors"),
+                  where="%s:%d" % (g.file, g.line), instance={"order": "invariant -> map_can_break | soft rules only on None", "paths": nrows})
         # .. and no answer other than `Invalid` (no context at all) is given without having asked the invariant: an early
         # `return MustNotBreak` for some kind of line overrides the hard breaks (before a multi-line literal, after a line comment)
         early = []
@@ -443,6 +464,10 @@ def check_c02(prog, rep, tier, cfg):
     # otherwise two lines are re-indented as one and the second keeps its old indentation (shared with C12.e)
     import strings as _strings
     _strings.check_c12(prog, _Alias(rep, [("C12.e", r".", "C02.l")]), tier, cfg)
+    # C02.m — what the user re-scans is the file pasfmt wrote: the formatted text reaches it through the encoder of the file's encoding
+    # only (one byte per character after a UTF-16 BOM re-scans to other tokens altogether).  Shared with C17.c.
+    import orch as _orch
+    _orch.c17c(prog, _Alias(rep, [("C17.c", r".", "C02.m")]))
     # ---------------------------------------------------------------- C02.i who may change a token's kind, and which tokens
     R = "C02.i"
     writers = {}
